@@ -49,10 +49,11 @@ def merge_property(families_fn, assumptions):
         cov["histories"] = {k: v for k, v in life.items() if k != "samples"}
         cov["traces_validated_against_impl"] += life["traces_validated_against_impl"]
         cov["states"] += life["states"]
-        if report.prop == "C06":
-            # warnings of each `ro += msg` inside a non-strict collection merge (the caller records with "always")
+        if report.prop in ("C05", "C06"):
+            # each `ro += msg` inside a (non-)strict collection merge: failures leave the running order unchanged (C05),
+            # warnings reach a caller that records with "always" (C06)
             from . import collection
-            coll = collection.run(report, tier, seed, (), step_props=("C06",))
+            coll = collection.run(report, tier, seed, (), step_props=(report.prop,))
             cov["collection_steps"] = {k: v for k, v in coll.items() if k != "samples"}
             cov["traces_validated_against_impl"] += coll.get("merge_steps_judged", 0)
         stage["histories"] = round(time.time() - t0, 1)
